@@ -29,6 +29,9 @@ claimed.update({
                      "SDS gate: for every resource name (scheme menu + symbolic suffix), identity, RBAC answer, verified-reference set and cache state, key material is fetched only for the verified namespace and an authorised caller "
                      "(or a verified gateway reference), Authorize is asked only about the verified identity, and every cache lookup happens after the gate.",
                 note="Outside: SubjectAccessReview back end, TLS peer extraction.", ref="§4 C11"),
+    "C01": dict(text="Decision layer only: the real cds/eds/lds/rdsNeedsPush are monotone under request merging (batching never loses a push a constituent change required) for every pair of requests "
+                     "(every config kind, symbolic names, every trigger reason, sidecar/router/waypoint), and a forced request pushes every type and is never filtered.",
+                note="Outside (stated): equality of resources that are not resent, end-to-end stream convergence (needs generator read-sets).", ref="§4 C01"),
     "C19": dict(text="injectRequired decided against the documented precedence for every combination of hostNetwork, namespace vs ignored list, label/annotation presence and arbitrary values, 0-2 never/always selectors with arbitrary validity/emptiness/match, and arbitrary policy string.",
                 note="Outside: idempotent re-injection and container preservation (template/YAML/JSON-patch machinery).", ref="§4 C19"),
 })
